@@ -357,4 +357,100 @@ theorem exp_reduction_bits_f32 (lib : Libm) (x kb : Nat) (qx : ℚ) (k : ℤ)
   rw [(exp_shape lib x).2.1]
   simp only [spec, hlib]
 
+open FAVerif.Refine FAVerif.SoftRound in
+/-- **The reduction on BIT PATTERNS (float16).**  For every finite input pattern x with |value| ≤ 11.09, if the
+`floor` oracle returns a finite pattern denoting the mathematical floor of its (finite) argument and the five
+arithmetic results are finite, then the program traced from the current source returns patterns (k, r, c) with
+value(r) = value(x) − k·ln2hi EXACTLY, |k| ≤ 16, k·(ln2hi+ln2lo) + (value r + value c) within 5e-5 of value(x)
+and |value r + value c| ≤ 0.361.  Chain: `exp_shape` (the program is the documented formula) →
+`exp_spec_bits` (softfloat mul/add/sub correctly rounded) → `exp_reduction_16`. -/
+theorem exp_reduction_bits_f16 (lib : Libm) (x kb : Nat) (qx : ℚ) (k : ℤ)
+    (fx : isFiniteBits binary16 x = true) (vx : toQ binary16 x = some qx) (hX : |qx| ≤ 1109 / 100)
+    (hlib : lib "floor" [fadd binary16 (fmul binary16 consts16.1 x) consts16.2.1] = some kb)
+    (fk : isFiniteBits binary16 kb = true) (vk : toQ binary16 kb = some (k : ℚ))
+    (hfloor : ∀ q2, toQ binary16 (fadd binary16 (fmul binary16 consts16.1 x) consts16.2.1) = some q2 → k = ⌊q2⌋)
+    (f1 : isFiniteBits binary16 (fmul binary16 consts16.1 x) = true)
+    (f2 : isFiniteBits binary16 (fadd binary16 (fmul binary16 consts16.1 x) consts16.2.1) = true)
+    (fP : isFiniteBits binary16 (fmul binary16 kb consts16.2.2.1) = true)
+    (fr : isFiniteBits binary16 (fsub binary16 x (fmul binary16 kb consts16.2.2.1)) = true)
+    (fc : isFiniteBits binary16 (fmul binary16 (fneg binary16 kb) consts16.2.2.2) = true) :
+    ∃ rb cb qr qc, argred_exp_f16.eval lib [x] = some [kb, rb, cb] ∧ toQ binary16 rb = some qr ∧ toQ binary16 cb = some qc ∧
+      |k| ≤ 16 ∧ qr = qx - k * H16 ∧ |k * (H16 + L16) + (qr + qc) - qx| ≤ 5 / 10 ^ 5 ∧ |qr + qc| ≤ 361 / 1000 := by
+  have hf : WF binary16 := ⟨by decide, by decide⟩
+  have hq : qf binary16 hf.hp = q16 := by
+    unfold qf q16
+    have : binary16.emin = -24 := by decide
+    simp only [this]; rfl
+  obtain ⟨c1, c2, c3, c4⟩ := exp_constants
+  have cV : toQ binary16 consts16.1 = some V16 := by have := congrArg (·.1) c1; simpa [toQ] using this
+  have cH : toQ binary16 consts16.2.2.1 = some H16 := by have := congrArg (·.2.1) c1; simpa [toQ] using this
+  have cL : toQ binary16 consts16.2.2.2 = some L16 := by have := congrArg (·.2.2) c1; simpa [toQ] using this
+  have cHf : toQ binary16 consts16.2.1 = some (1 / 2) := by decide +kernel
+  have fV : isFiniteBits binary16 consts16.1 = true := by decide +kernel
+  have fHf : isFiniteBits binary16 consts16.2.1 = true := by decide +kernel
+  have fH : isFiniteBits binary16 consts16.2.2.1 = true := by decide +kernel
+  have fL : isFiniteBits binary16 consts16.2.2.2 = true := by decide +kernel
+  have hx : Rep q16 qx := by
+    obtain ⟨s, m, e, hd⟩ := finite_decode binary16 x fx
+    have := rep_of_decode binary16 hf x s m e hd
+    rw [toQ_fin binary16 x s m e hd] at vx; cases vx
+    rw [hq] at this; exact this
+  obtain ⟨b1, b2, b3⟩ := exp_spec_bits binary16 hf consts16.1 consts16.2.1 consts16.2.2.1 consts16.2.2.2 x kb V16 H16 L16 qx
+    fV cV fHf cHf fH cH fL cL fx vx f1 f2 fk k vk hfloor fP fr fc
+  rw [hq] at b1 b2 b3
+  have hr : IsRN q16 (FAVerif.FPQ.rne q16) := FAVerif.FPQ.isRN_rne _
+  obtain ⟨e1, e2, e3, e4, e5, e6⟩ := exp_reduction_16 (FAVerif.FPQ.rne q16) hr qx hx hX
+  rw [← b1] at e1 e2 e3 e4 e5
+  refine ⟨_, _, _, _, ?_, b2, b3, e1, e2, e4, e5⟩
+  rw [(exp_shape lib x).1]
+  simp only [spec, hlib]
+
+open FAVerif.Refine FAVerif.SoftRound in
+/-- **The reduction on BIT PATTERNS (float64).**  For every finite input pattern x with |value| ≤ 709.79, if the
+`floor` oracle returns a finite pattern denoting the mathematical floor of its (finite) argument and the five
+arithmetic results are finite, then the program traced from the current source returns patterns (k, r, c) with
+value(r) = value(x) − k·ln2hi EXACTLY, |k| ≤ 1024, k·(ln2hi+ln2lo) + (value r + value c) within 3e-23 of value(x)
+and |value r + value c| ≤ 0.347.  Chain: `exp_shape` (the program is the documented formula) →
+`exp_spec_bits` (softfloat mul/add/sub correctly rounded) → `exp_reduction_64`. -/
+theorem exp_reduction_bits_f64 (lib : Libm) (x kb : Nat) (qx : ℚ) (k : ℤ)
+    (fx : isFiniteBits binary64 x = true) (vx : toQ binary64 x = some qx) (hX : |qx| ≤ 70979 / 100)
+    (hlib : lib "floor" [fadd binary64 (fmul binary64 consts64.1 x) consts64.2.1] = some kb)
+    (fk : isFiniteBits binary64 kb = true) (vk : toQ binary64 kb = some (k : ℚ))
+    (hfloor : ∀ q2, toQ binary64 (fadd binary64 (fmul binary64 consts64.1 x) consts64.2.1) = some q2 → k = ⌊q2⌋)
+    (f1 : isFiniteBits binary64 (fmul binary64 consts64.1 x) = true)
+    (f2 : isFiniteBits binary64 (fadd binary64 (fmul binary64 consts64.1 x) consts64.2.1) = true)
+    (fP : isFiniteBits binary64 (fmul binary64 kb consts64.2.2.1) = true)
+    (fr : isFiniteBits binary64 (fsub binary64 x (fmul binary64 kb consts64.2.2.1)) = true)
+    (fc : isFiniteBits binary64 (fmul binary64 (fneg binary64 kb) consts64.2.2.2) = true) :
+    ∃ rb cb qr qc, argred_exp_f64.eval lib [x] = some [kb, rb, cb] ∧ toQ binary64 rb = some qr ∧ toQ binary64 cb = some qc ∧
+      |k| ≤ 1024 ∧ qr = qx - k * H64 ∧ |k * (H64 + L64) + (qr + qc) - qx| ≤ 3 / 10 ^ 23 ∧ |qr + qc| ≤ 347 / 1000 := by
+  have hf : WF binary64 := ⟨by decide, by decide⟩
+  have hq : qf binary64 hf.hp = q64 := by
+    unfold qf q64
+    have : binary64.emin = -1074 := by decide
+    simp only [this]; rfl
+  obtain ⟨c1, c2, c3, c4⟩ := exp_constants
+  have cV : toQ binary64 consts64.1 = some V64 := by have := congrArg (·.1) c3; simpa [toQ] using this
+  have cH : toQ binary64 consts64.2.2.1 = some H64 := by have := congrArg (·.2.1) c3; simpa [toQ] using this
+  have cL : toQ binary64 consts64.2.2.2 = some L64 := by have := congrArg (·.2.2) c3; simpa [toQ] using this
+  have cHf : toQ binary64 consts64.2.1 = some (1 / 2) := by decide +kernel
+  have fV : isFiniteBits binary64 consts64.1 = true := by decide +kernel
+  have fHf : isFiniteBits binary64 consts64.2.1 = true := by decide +kernel
+  have fH : isFiniteBits binary64 consts64.2.2.1 = true := by decide +kernel
+  have fL : isFiniteBits binary64 consts64.2.2.2 = true := by decide +kernel
+  have hx : Rep q64 qx := by
+    obtain ⟨s, m, e, hd⟩ := finite_decode binary64 x fx
+    have := rep_of_decode binary64 hf x s m e hd
+    rw [toQ_fin binary64 x s m e hd] at vx; cases vx
+    rw [hq] at this; exact this
+  obtain ⟨b1, b2, b3⟩ := exp_spec_bits binary64 hf consts64.1 consts64.2.1 consts64.2.2.1 consts64.2.2.2 x kb V64 H64 L64 qx
+    fV cV fHf cHf fH cH fL cL fx vx f1 f2 fk k vk hfloor fP fr fc
+  rw [hq] at b1 b2 b3
+  have hr : IsRN q64 (FAVerif.FPQ.rne q64) := FAVerif.FPQ.isRN_rne _
+  obtain ⟨e1, e2, e3, e4, e5, e6⟩ := exp_reduction_64 (FAVerif.FPQ.rne q64) hr qx hx hX
+  rw [← b1] at e1 e2 e3 e4 e5
+  refine ⟨_, _, _, _, ?_, b2, b3, e1, e2, e4, e5⟩
+  rw [(exp_shape lib x).2.2]
+  simp only [spec, hlib]
+
 end FAVerif.Props.C17
